@@ -59,6 +59,7 @@ func cmdUnit(args []string) {
 	keep := fs.String("keep", "", "directory for failed queries")
 	lock := fs.Bool("lock", false, "lock discipline obligations")
 	nocache := fs.Bool("nocache", false, "disable cache")
+	dump := fs.String("dump", "", "dump scripts of obligations whose name contains this")
 	fs.Parse(args)
 	t0 := time.Now()
 	env, err := loadEnv(*repo)
@@ -94,6 +95,16 @@ func cmdUnit(args []string) {
 			u := verifyUnit(env, k, fn, UnitOpts{LockMode: *lock})
 			fmt.Printf("== %s: %d obligations, %d assumptions, generated in %v\n", k, len(u.Obligs), len(u.Assumes), time.Since(t1))
 			units = append(units, u)
+		}
+	}
+	if *dump != "" {
+		os.MkdirAll("/tmp/dump", 0o755)
+		for _, u := range units {
+			for _, o := range u.Obligs {
+				if strings.Contains(o.Name, *dump) {
+					os.WriteFile("/tmp/dump/"+safeName(o.Name)+".smt2", []byte(obligScript(u, o)), 0o644)
+				}
+			}
 		}
 	}
 	t2 := time.Now()
